@@ -20,7 +20,7 @@ ASSUMPTIONS = ["Bezier tolerance: rounding bound 1024*eps*(|positions| under the
 CONFIGS = ['scipy']
 BUDGET = {'quick': 30000, 'thorough': 400000}
 REQUIRED = ['pre:queried', 'pre:reversed_twice', 'pre:transformed_before', 'op:translated', 'op:rotated', 'op:scaled', 'op:scaled_xy', 'op:transform', 'kind:A', 'kind:path', 'path:closed',
-            'M:shear', 'M:reflect_diag', 'M:nonuniform', 'M:rotation', 'M:near_identity']
+            'M:shear', 'M:reflect_diag', 'M:nonuniform', 'M:rotation', 'M:near_identity', 'M:integer_typed_array', 'arc_without_autoscale']
 
 EPS = 2.0 ** -52
 TG = [0.0, 0.125, 0.25, 0.375, 0.5, 0.625, 0.75, 0.875, 1.0]
@@ -32,7 +32,7 @@ def matrix_s(draw):
     n = draw(st.integers(1, 3))
     fs = []
     for _ in range(n):
-        k = draw(st.sampled_from(['rotation', 'uniform', 'nonuniform', 'reflect_x', 'reflect_y', 'reflect_diag', 'shear', 'translation', 'identity', 'near_identity']))
+        k = draw(st.sampled_from(['rotation', 'uniform', 'nonuniform', 'reflect_x', 'reflect_y', 'reflect_diag', 'shear', 'translation', 'identity', 'near_identity', 'integer']))
         if k == 'rotation':
             fs.append([k, draw(st.one_of(st.sampled_from([90.0, 180.0, 270.0, 45.0, 30.0, -60.0]), gen.floats_in(-360.0, 360.0)))])
         elif k == 'uniform':
@@ -43,6 +43,10 @@ def matrix_s(draw):
             fs.append([k, draw(gen.floats_in(-2.0, 2.0)), draw(st.integers(0, 1))])
         elif k == 'translation':
             fs.append([k, draw(gen.coord()), draw(gen.coord())])
+        elif k == 'integer':
+            # integer entries; handed over as an integer-typed array when every factor is integral
+            iv = st.integers(-3, 3)
+            fs.append([k, draw(iv), draw(iv), draw(iv), draw(iv), draw(st.integers(-9, 9)), draw(st.integers(-9, 9))])
         elif k == 'near_identity':
             # a matrix that differs from the identity by a relative 1e-12..1e-5 in one respect (still invertible, still not the identity)
             fs.append([k, draw(st.integers(0, 3)), draw(st.sampled_from([1e-5, 8e-6, 1e-6, 1e-7, 1e-9, 1e-12])) * draw(st.sampled_from([1, -1]))])
@@ -76,6 +80,8 @@ def build_matrix(fs):
                 A[1, 0] = f[1]
         elif k == 'translation':
             A[0, 2], A[1, 2] = f[1], f[2]
+        elif k == 'integer':
+            A[0, 0], A[0, 1], A[1, 0], A[1, 1], A[0, 2], A[1, 2] = f[1:7]
         elif k == 'near_identity':
             if f[1] == 0:
                 A[0, 0] = A[1, 1] = 1 + f[2]
@@ -123,6 +129,7 @@ def strategy(tier, config):
             d['M'] = draw(matrix_s())
         d['ts'] = draw(st.lists(gen.floats_in(0.0, 1.0), min_size=1, max_size=2))
         d['pre'] = draw(st.sampled_from(['none', 'none', 'queried', 'reversed_twice', 'transformed_before']))
+        d['noautoscale'] = draw(st.integers(0, 2)) == 0
         return d
     return s()
 
@@ -143,6 +150,17 @@ def check(case, ctx):
                 ctx.discard('arc chord/radius ratio extreme')
     is_path = case['what'] == 'path'
     curve = ctx.lib('build', gen.build_path, specs) if is_path else ctx.lib('build', gen.build_seg, specs[0])
+    if case.get('noautoscale') and any(sp[0] == 'A' for sp in specs):
+        # arcs constructed with autoscale_radius=False (accepted by the constructor when the radii fit): nothing in the claim changes
+        def _arc(sp):
+            try:
+                return Arc(gen.C(sp[1]), gen.C(sp[2]), sp[3], bool(sp[4]), bool(sp[5]), gen.C(sp[6]), autoscale_radius=False)
+            except ValueError:
+                return gen.build_seg(sp)
+        segs_ = [_arc(sp) if sp[0] == 'A' else gen.build_seg(sp) for sp in specs]
+        if any(isinstance(sg, Arc) and not sg.autoscale_radius for sg in segs_):
+            ctx.count('arc_without_autoscale')
+        curve = Path(*segs_) if is_path else segs_[0]
     kind = 'path' if is_path else specs[0][0]
     ctx.count('kind:' + kind)
     # the object the operation is applied to may have a past: caches filled by queries, or itself the product of operations
@@ -238,7 +256,11 @@ def check(case, ctx):
         f = lambda p: complex(M[0, 0] * p.real + M[0, 1] * p.imag + M[0, 2], M[1, 0] * p.real + M[1, 1] * p.imag + M[1, 2])
         mag = float(sv[0]) * (1 + math.hypot(M[0, 2], M[1, 2]) / pos)
         trivial = bool(np.all(M == np.identity(3)))
-        res = ctx.lib('transform/' + kind, transform, curve, M)
+        Marg = M
+        if all(fct[0] in ('integer', 'reflect_x', 'reflect_y', 'reflect_diag', 'identity') for fct in case['M']) and np.all(M == np.round(M)):
+            Marg = M.astype(int)
+            ctx.count('M:integer_typed_array')
+        res = ctx.lib('transform/' + kind, transform, curve, Marg)
     if not trivial and len({tuple(p) for s in specs for p in gen.spec_points(s)}) >= 2:
         ctx.nontrivial()
 
